@@ -577,8 +577,41 @@ func genC14(d *Draw) Case {
 			}
 		}
 	}
+	if d.N(4) == 3 {
+		// names that share what follows a colon (as identifiers with a modeller's prefix do)
+		ren := map[string]string{"s1": "ord:evt", "s2": "inv:evt", "sX": "pay:evt", "m1": "ord:msg", "m2": "inv:msg", "mX": "pay:msg", "e1": "ord:esc", "x1": "ord:err"}
+		renameRefs(c, ren)
+		c.Meta["colon"] = 1
+	}
 	nestEvents(d, c)
 	return c
+}
+
+// renameRefs renames event references everywhere in a case: definitions of catch / throw / boundary events, declared
+// signals, messages, escalations and errors, and the event plan.
+func renameRefs(c *ProcCase, ren map[string]string) {
+	defs := c.Prog.Defs
+	for _, g := range defs.Procs {
+		for _, n := range g.allNodes() {
+			for i := range n.Events {
+				if nw, ok := ren[n.Events[i].Ref]; ok {
+					n.Events[i].Ref = nw
+				}
+			}
+		}
+	}
+	for _, l := range []*[]string{&defs.Signals, &defs.Messages, &defs.Escalations, &defs.Errors} {
+		for i, v := range *l {
+			if nw, ok := ren[v]; ok {
+				(*l)[i] = nw
+			}
+		}
+	}
+	for i := range c.Events {
+		if nw, ok := ren[c.Events[i].Ref]; ok {
+			c.Events[i].Ref = nw
+		}
+	}
 }
 
 func checkC14(cc Case, r *simrt.Result) *Outcome {
@@ -684,6 +717,7 @@ func checkC14(cc Case, r *simrt.Result) *Outcome {
 	probe(o, "burst-behind-a-stalled-node", burst)
 	probe(o, "process-without-activities", c.Meta["bare"] == 1)
 	probe(o, "escalation-and-error-definitions-among-them", c.Meta["esc"] == 1)
+	probe(o, "references-that-share-what-follows-a-colon", c.Meta["colon"] == 1)
 	probe(o, "event-nodes-inside-sub-process", c.Meta["nested"] > 0)
 	o.Sample = map[string]any{"program": c.Prog.Desc, "matches_per_definition": matches, "fires": fires}
 	return o
